@@ -36,6 +36,7 @@ func vhCheckRegistration(st t_api.StatusCode, p *promise.Promise, cb *callback.C
 	if n == 1 {
 		vx.Reach("already-completed")
 		prow := vx.Lookup(vx.YieldPost(0), "promises", pid)
+		vx.Assert(int64(p.State) != 1, "C05:no-registration-only-if-reported-completed")
 		vx.Assert(vx.And(int64(p.State) != 1, vhBodyIsRow(p, prow)), "C01:body-is-row")
 		return
 	}
